@@ -120,7 +120,16 @@ def build_pp():
         message('WReq', [field('name', 1, 'string'), field('thing', 2, f'.{PP}.Thing')]),
         message('WResp', [field('ok', 1, 'bool'), field('thing', 2, f'.{PP}.Thing')])], services=[service('Widgets', ms)])
     main.dependency.extend(desc.std_dep_names() + [common.name])
-    req = request([main], f'transport=grpc,autogen-snippets=false,proto-plus-deps={PP}', extra_dep_files=[common])
+    # a service declared in a proto sub-package of the API (its RPC paths carry the sub-package)
+    sub_ms = []
+    for ar, (cs, ss) in ARITIES.items():
+        name = f'Sub{ar.capitalize()}'
+        sub_ms.append(method(name, f'.{PW}.WReq', f'.{PW}.WResp', cs=cs, ss=ss))
+        cells.append(dict(id=f'pp/{ar}/subpackage-service', service='Admin', rpc=name, py=names.py_method(name), arity=KIND[ar],
+                          req=f'.{PW}.WReq', resp=f'.{PW}.WResp'))
+    sub = file('acme/widgets/v1/admin/admin.proto', PW + '.admin', services=[service('Admin', sub_ms)])
+    sub.dependency.extend(desc.std_dep_names() + [main.name])
+    req = request([main, sub], f'transport=grpc,autogen-snippets=false,proto-plus-deps={PP}', extra_dep_files=[common])
     desc.gate(req)
     return pre_req, req, cells
 
@@ -132,7 +141,8 @@ def make_pp_job(cells_subset=None, seed=0):
     return dict(id='c03-protoplus-deps', req=req.SerializeToString(), probe='mc.probes.grpc_calls',
                 pre=[dict(id='c03-pp-pre', req=pre_req.SerializeToString())],
                 probe_args=dict(package=names.import_package(PW), proto_package=PW, cells=cells, seed=seed,
-                                plus={PP: names.import_package(PP)})), cells
+                                plus={PP: names.import_package(PP)}, svc_package={'Admin': names.import_package(PW) + '.admin'},
+                                svc_proto_package={'Admin': PW + '.admin'})), cells
 
 
 def make_job(cells_subset=None, seed=0):
